@@ -977,6 +977,20 @@ int liveThreads(const char *prefix)
   return n;
 }
 
+int threadPhase(const std::string &name)
+{
+  if (!G) return 2;
+  Lock l;
+  for (auto &u : G->th)
+    if (u->name == name)
+    {
+      if (u->state == Finished) return 2;
+      if (u->state == CvWaiting) return 1;
+      return 0;
+    }
+  return 2; // not created (yet) or unknown: callers treat it as "not active"
+}
+
 int self() { return t_cur ? t_cur->id : -1; }
 const char *selfName() { return t_cur ? t_cur->name.c_str() : "-"; }
 
